@@ -74,13 +74,26 @@ type witness struct {
 	Strict     sideRes    `json:"strict"`
 	Permissive sideRes    `json:"permissive"`
 	FirstDiff  *fieldDiff `json:"first_difference,omitempty"`
+	// number of (input, target) pairs of the run that the join classified under this signature
+	Occurrences int64 `json:"occurrences_in_run,omitempty"`
 }
 
 type cand struct {
 	unit, item, tpos int
 	kind             string // "fail" | "rest" | "digest" | "sample"
+	sig              string // stream-level signature (empty for samples)
 	note             string
 }
+
+// sigAgg: every difference the join sees is classified at once from the
+// streamed records (signature()); per signature the exact number of
+// occurrences and a few representatives (re-run in fresh processes).
+type sigAgg struct {
+	count int64
+	reps  []cand
+}
+
+const repsPerSig = 4
 
 type tstat struct {
 	StrictOK     int64 `json:"strict_ok"`
@@ -92,11 +105,6 @@ type tstat struct {
 	Candidates   int64 `json:"candidate_differences"`
 }
 
-type violAgg struct {
-	w     witness
-	count int64
-}
-
 type parent struct {
 	c        *ev.Ctx
 	units    []unit
@@ -105,25 +113,23 @@ type parent struct {
 	workdir  string
 	corpus   string
 
-	mu        sync.Mutex
-	stats     []tstat
-	permOnly  map[string]int64 // fam | strict class -> count
-	bothFail  map[string]int64 // fam | same / different class
-	cands     []cand
-	candCount map[string]int64 // target|kind -> total seen
-	samples   map[int]bool     // target -> a permissive-only sample was recorded
-	items     int64
-	evals     [2]int64
-	done      map[int]bool
-	partial   map[int]bool
-	died      []string
-	opaque    map[string]bool
-	unitMs    map[string]int64
-	restarts  int
-	broken    string
+	mu       sync.Mutex
+	stats    []tstat
+	permOnly map[string]int64 // fam | strict class -> count
+	bothFail map[string]int64 // fam | same / different class
+	sigs     map[string]*sigAgg
+	sampleC  []cand
+	samples  map[int]bool // target -> a permissive-only sample was recorded
+	items    int64
+	evals    [2]int64
+	done     map[int]bool
+	partial  map[int]bool
+	died     []string
+	opaque   map[string]bool
+	unitMs   map[string]int64
+	restarts int
+	broken   string
 }
-
-const candCap = 300 // stored (and classified) candidates per (target, kind)
 
 func (p *parent) setBroken(s string) {
 	p.mu.Lock()
@@ -269,12 +275,15 @@ func (pr *proc) className(code uint64) string {
 // the join
 
 type rec struct {
-	code uint64
-	rest uint64
-	dg   [16]byte
+	code   uint64
+	rest   uint64
+	dg     [16]byte
+	fields []byte // raw field-summary block of a struct result (decoded only on a difference)
 }
 
-func readRec(b []byte) (r rec, n int, ok bool) {
+// readRec reads one record; nf is the number of exported fields of the
+// target's result type (0: no field summaries follow the digest).
+func readRec(b []byte, nf int) (r rec, n int, ok bool) {
 	c, k := binary.Uvarint(b)
 	if k <= 0 {
 		return r, 0, false
@@ -290,6 +299,24 @@ func readRec(b []byte) (r rec, n int, ok bool) {
 		n += k2
 		copy(r.dg[:], b[n:n+16])
 		n += 16
+		if nf > 0 {
+			bm := (nf + 7) / 8
+			if len(b) < n+bm {
+				return r, 0, false
+			}
+			nz := 0
+			for i := 0; i < nf; i++ {
+				if b[n+i/8]&(1<<uint(i%8)) == 0 {
+					nz++
+				}
+			}
+			l := bm + 4*nz
+			if len(b) < n+l {
+				return r, 0, false
+			}
+			r.fields = b[n : n+l]
+			n += l
+		}
 	}
 	return r, n, true
 }
@@ -326,8 +353,8 @@ type local struct {
 	stats       []tstat
 	permOnly    map[string]int64
 	bothFail    map[string]int64
-	cands       []cand
-	candCount   map[string]int64
+	sigs        map[string]*sigAgg
+	sampleC     []cand
 	items       int64
 	sampleTried map[int]bool
 }
@@ -345,8 +372,9 @@ func (p *parent) joinChunk(uid int, sw, pw *proc, hs, hp chunkHdr, lc *local) er
 		item := int(hs.first) + i
 		lc.items++
 		for tpos, ti := range u.targets {
-			rs, ns, ok1 := readRec(bs)
-			rp, np, ok2 := readRec(bp)
+			nf := len(targets[ti].fields)
+			rs, ns, ok1 := readRec(bs, nf)
+			rp, np, ok2 := readRec(bp, nf)
 			if !ok1 || !ok2 {
 				return fmt.Errorf("unit %q: malformed record stream", u.name)
 			}
@@ -362,9 +390,21 @@ func (p *parent) joinChunk(uid int, sw, pw *proc, hs, hp chunkHdr, lc *local) er
 			fam := targets[ti].fam
 			addCand := func(kind, note string) {
 				st.Candidates++
-				key := targets[ti].name + "|" + kind
-				lc.candCount[key]++
-				lc.cands = append(lc.cands, cand{unit: uid, item: item, tpos: tpos, kind: kind, note: note})
+				var fs, fp []fieldSum
+				if kind == "digest" && nf > 0 {
+					fs, _, _ = readFieldSums(rs.fields, nf)
+					fp, _, _ = readFieldSums(rp.fields, nf)
+				}
+				sig := signature(targets[ti].name, kind, note, targets[ti].fields, fs, fp)
+				a := lc.sigs[sig]
+				if a == nil {
+					a = &sigAgg{}
+					lc.sigs[sig] = a
+				}
+				a.count++
+				if len(a.reps) < repsPerSig {
+					a.reps = append(a.reps, cand{unit: uid, item: item, tpos: tpos, kind: kind, sig: sig, note: note})
+				}
 			}
 			sok, pok := rs.code == 0, rp.code == 0
 			if pok {
@@ -394,7 +434,7 @@ func (p *parent) joinChunk(uid int, sw, pw *proc, hs, hp chunkHdr, lc *local) er
 					p.samples[ti] = true
 					p.mu.Unlock()
 					if need {
-						lc.cands = append(lc.cands, cand{unit: uid, item: item, tpos: tpos, kind: "sample", note: cls})
+						lc.sampleC = append(lc.sampleC, cand{unit: uid, item: item, tpos: tpos, kind: "sample", note: cls})
 					}
 				}
 			default:
@@ -432,21 +472,20 @@ func (p *parent) merge(lc *local) {
 	for k, v := range lc.bothFail {
 		p.bothFail[k] += v
 	}
-	for k, v := range lc.candCount {
-		p.candCount[k] += v
-	}
-	perKey := map[string]int{}
-	for _, c := range p.cands {
-		perKey[targets[p.units[c.unit].targets[c.tpos]].name+"|"+c.kind]++
-	}
-	for _, c := range lc.cands {
-		key := targets[p.units[c.unit].targets[c.tpos]].name + "|" + c.kind
-		if perKey[key] >= candCap {
-			continue
+	for sig, a := range lc.sigs {
+		g := p.sigs[sig]
+		if g == nil {
+			g = &sigAgg{}
+			p.sigs[sig] = g
 		}
-		perKey[key]++
-		p.cands = append(p.cands, c)
+		g.count += a.count
+		for _, r := range a.reps {
+			if len(g.reps) < repsPerSig {
+				g.reps = append(g.reps, r)
+			}
+		}
 	}
+	p.sampleC = append(p.sampleC, lc.sampleC...)
 	p.items += lc.items
 }
 
@@ -456,7 +495,7 @@ func (p *parent) runUnit(uid int, sw, pw *proc) bool {
 	u := &p.units[uid]
 	fmt.Fprintf(sw.in, "run %d\n", uid)
 	fmt.Fprintf(pw.in, "run %d\n", uid)
-	lc := &local{stats: make([]tstat, len(targets)), permOnly: map[string]int64{}, bothFail: map[string]int64{}, candCount: map[string]int64{}, sampleTried: map[int]bool{}}
+	lc := &local{stats: make([]tstat, len(targets)), permOnly: map[string]int64{}, bothFail: map[string]int64{}, sigs: map[string]*sigAgg{}, sampleTried: map[int]bool{}}
 	const idle = 240 * time.Second
 	var doneS, doneP *jmsg
 	fail := func(why string) bool {
@@ -613,7 +652,7 @@ func run(c *ev.Ctx) {
 		return
 	}
 
-	p := &parent{c: c, permOnly: map[string]int64{}, bothFail: map[string]int64{}, candCount: map[string]int64{}, samples: map[int]bool{},
+	p := &parent{c: c, permOnly: map[string]int64{}, bothFail: map[string]int64{}, sigs: map[string]*sigAgg{}, samples: map[int]bool{},
 		done: map[int]bool{}, partial: map[int]bool{}, opaque: map[string]bool{}, unitMs: map[string]int64{}}
 	p.workdir = filepath.Join(ev.VerifDir, ".work", fmt.Sprintf("c20-%d", os.Getpid()))
 	os.MkdirAll(p.workdir, 0o755)
@@ -641,11 +680,11 @@ func run(c *ev.Ctx) {
 		"Units: G-bytes = all byte strings of length <= 2 for every target and all of length 3 for 5 primitive asn1 targets (int, string, []byte, RawValue, interface{}); "+
 		"header model = %d identifier octets x 8 length forms (minimal, 3 non-minimal long forms, +1, -1, long +1, indefinite) x contents (%s) x 3 trailers, for all asn1 targets; "+
 		"time model = product of per-component alphabets for UTCTime and GeneralizedTime contents (years incl. 49/50, out-of-range neighbours, 9 zone forms); "+
-		"G-tlv = for each seed (%d ASN.1 primitive seeds incl. encodings on every mode-dependent branch, minted certificates + repository certificate fixtures, CSRs) the seed, every (TLV node x %d operators) single mutation, every single-byte substitution from {00,01,7f,80,ff,b^01,b^80}, every truncation%s; "+
+		"G-tlv = for each seed (%d ASN.1 primitive seeds incl. encodings on every mode-dependent branch, minted certificates + repository certificate fixtures, %d certificates of the field model (all extensions at once; one well-formed alternative each%s), CSRs) the seed, every (TLV node x %d operators) single mutation, every single-byte substitution from {00,01,7f,80,ff,b^01,b^80}, every truncation%s; "+
 		"G-field = every assignment of the certificate model (%d fields, %d non-default alternatives) with <= %d non-default fields = %d certificates, each also as bare TBSCertificate. "+
 		"distinct_nontrivial = (input, target) pairs accepted by strict mode, i.e. the pairs on which the statement demands something.",
-		len(units), len(famTargets("asn1")), len(hdrTags), map[bool]string{true: "all of length <= 1 + all pairs over a 12-byte alphabet", false: "all of length <= 2"}[quick],
-		len(primSeeds()), xgen.TLVMenuSize, map[bool]string{true: "", false: ", plus every pair of core-menu mutations on siblings / parent+child (TLVPairs) for primitive seeds, minted certificates and CSRs"}[quick],
+		len(units), len(famTargets("asn1")), len(hdrTags), map[bool]string{true: "all of length <= 1 + all pairs over a 12-byte alphabet", false: "all of length <= 1 + all pairs over a 48-byte alphabet"}[quick],
+		len(primSeeds()), len(modelSeedAssignments(quick)), map[bool]string{true: "", false: "; every assignment with one non-default field"}[quick], xgen.TLVMenuSize, map[bool]string{true: "", false: ", plus every pair of core-menu mutations on siblings / parent+child (TLVPairs) for primitive seeds, minted certificates and CSRs"}[quick],
 		len(xgen.Fields()), nonDefaultAlts(), d, xgen.CountAssignments(d)))
 
 	budget := 95 * time.Second
@@ -662,7 +701,7 @@ func run(c *ev.Ctx) {
 	// order: long units first (G-field shards, certificate seeds), cheap ones after
 	var order []int
 	seen := map[int]bool{}
-	for _, pre := range []string{"gfield/", "seed/cert/", "seed/csr/", "hdr/", "time/", "seed/prim/", "gbytes/asn1", "gbytes/x509", "gbytes/prim"} {
+	for _, pre := range []string{"gfield/", "seed/cert/", "seed/certmodel/", "seed/csr/", "hdr/", "time/", "seed/prim/", "gbytes/asn1", "gbytes/x509", "gbytes/prim"} {
 		for i, u := range units {
 			if !seen[i] && strings.HasPrefix(u.name, pre) {
 				order = append(order, i)
@@ -715,7 +754,7 @@ func run(c *ev.Ctx) {
 	wg.Wait()
 
 	// ---- classify the candidate differences in fresh processes
-	p.resolve(order)
+	p.resolve()
 	if p.broken != "" {
 		c.Broken("%s", p.broken)
 	}
@@ -864,10 +903,21 @@ type resolved struct {
 	input []byte
 }
 
-func (p *parent) resolve(order []int) {
+// resolve re-runs the representatives of every signature (and the
+// permissive-only samples) in fresh processes, confirms them and reports.
+func (p *parent) resolve() {
 	c := p.c
 	p.mu.Lock()
-	cands := append([]cand(nil), p.cands...)
+	var cands []cand
+	sigs := make([]string, 0, len(p.sigs))
+	for sg := range p.sigs {
+		sigs = append(sigs, sg)
+	}
+	sort.Strings(sigs)
+	for _, sg := range sigs {
+		cands = append(cands, p.sigs[sg].reps...)
+	}
+	cands = append(cands, p.sampleC...)
 	p.mu.Unlock()
 	if len(cands) == 0 {
 		return
@@ -907,11 +957,10 @@ func (p *parent) resolve(order []int) {
 			return item < maxItem
 		})
 	})
-	// batches for the fresh processes
-	const batch = 32
+	const batch = 24
 	nb := (len(res) + batch - 1) / batch
-	type pairOut struct{ s, p []singleOut }
-	outs := make([]pairOut, nb)
+	type tripleOut struct{ s, s2, p []singleOut }
+	outs := make([]tripleOut, nb)
 	var failed sync.Map
 	c.Parallel(nb, func(_, b int) {
 		lo, hi := b*batch, (b+1)*batch
@@ -924,15 +973,21 @@ func (p *parent) resolve(order []int) {
 		}
 		so, err1 := runSingle("strict", items, 120*time.Second)
 		po, err2 := runSingle("permissive", items, 120*time.Second)
-		if err1 != nil || err2 != nil {
-			failed.Store(b, fmt.Sprintf("strict: %v; permissive: %v", err1, err2))
+		// a second strict process: a decoder whose result is not a function of its
+		// input (map iteration order ...) must not be mistaken for a mode difference
+		so2, err3 := runSingle("strict", items, 120*time.Second)
+		if err1 != nil || err2 != nil || err3 != nil {
+			failed.Store(b, fmt.Sprintf("strict: %v / %v; permissive: %v", err1, err3, err2))
 			return
 		}
-		outs[b] = pairOut{so, po}
+		outs[b] = tripleOut{so, so2, po}
 	})
-	viol := map[string]*violAgg{}
-	notReproduced := 0
-	unresolved := 0
+	type confirmed struct {
+		w   witness
+		sig string
+	}
+	best := map[string]*confirmed{} // stream signature -> smallest confirmed witness
+	notReproduced, nondet, unresolved := map[string]int{}, 0, 0
 	for i, r := range res {
 		b := i / batch
 		if outs[b].s == nil {
@@ -940,6 +995,10 @@ func (p *parent) resolve(order []int) {
 			continue
 		}
 		s, pr := outs[b].s[i-b*batch], outs[b].p[i-b*batch]
+		if s2 := outs[b].s2[i-b*batch]; s2.OK != s.OK || s2.Digest != s.Digest || s2.Rest != s.Rest {
+			nondet++
+			continue
+		}
 		tname := targets[p.units[r.c.unit].targets[r.c.tpos]].name
 		w := witness{Target: tname, Unit: p.units[r.c.unit].name, Item: r.c.item, Derivation: r.desc, InputHex: hex.EncodeToString(r.input), InputLen: len(r.input),
 			Strict: sideRes{OK: s.OK, Err: s.Err, Rest: s.Rest, Digest: s.Digest}, Permissive: sideRes{OK: pr.OK, Err: pr.Err, Rest: pr.Rest, Digest: pr.Digest}}
@@ -951,54 +1010,42 @@ func (p *parent) resolve(order []int) {
 		}
 		sig, diff := verdict(tname, s, pr)
 		if sig == "" {
-			notReproduced++
+			notReproduced[r.c.sig]++
 			continue
 		}
 		w.FirstDiff = diff
-		if v, ok := viol[sig]; ok {
-			v.count++
-			if w.InputLen < v.w.InputLen {
-				v.w = w
-			}
-		} else {
-			viol[sig] = &violAgg{w: w, count: 1}
+		if cur, ok := best[r.c.sig]; !ok || w.InputLen < cur.w.InputLen {
+			best[r.c.sig] = &confirmed{w: w, sig: sig}
 		}
 	}
 	failed.Range(func(k, v any) bool {
-		c.Incomplete(fmt.Sprintf("fresh-process re-run of candidate batch %v failed: %v", k, v))
+		c.Incomplete(fmt.Sprintf("fresh-process re-run of batch %v failed: %v", k, v))
 		return true
 	})
-	if notReproduced > 0 {
-		c.Incomplete(fmt.Sprintf("%d differences seen by the streaming workers were NOT reproduced by the fresh-process re-run (not reported as violations)", notReproduced))
+	if nondet > 0 {
+		c.Incomplete(fmt.Sprintf("%d inputs gave different results in two fresh STRICT processes (the decoder is not deterministic on them): not judged", nondet))
 	}
-	c.Set("candidates_rerun_in_fresh_processes", len(res)-unresolved)
-	c.Set("candidates_not_reproduced", notReproduced)
-	// candidates beyond the classification cap
-	over := map[string]int64{}
-	for key, n := range p.candCount {
-		if n > candCap {
-			over[strings.SplitN(key, "|", 2)[0]] += n - candCap
+	classified := map[string]int64{}
+	for _, sg := range sigs {
+		a := p.sigs[sg]
+		classified[sg] = a.count
+		cf, ok := best[sg]
+		if !ok {
+			c.Incomplete(fmt.Sprintf("%d differences classified %q by the join were NOT reproduced by any of %d fresh-process re-runs (not reported as a violation)", a.count, sg, len(a.reps)))
+			continue
+		}
+		// the fresh processes classify with the same function: normally cf.sig == sg
+		cf.w.Occurrences = a.count
+		n := a.count
+		if n > 1000 {
+			n = 1000 // the exact number is in the witness
+		}
+		for i := int64(0); i < n; i++ {
+			c.Violation(cf.sig, cf.w)
 		}
 	}
-	sigs := make([]string, 0, len(viol))
-	for s := range viol {
-		sigs = append(sigs, s)
-	}
-	sort.Strings(sigs)
-	for _, s := range sigs {
-		v := viol[s]
-		for i := int64(0); i < v.count; i++ {
-			c.Violation(s, v.w)
-		}
-	}
-	if len(over) > 0 {
-		c.Set("differences_beyond_classification_cap", over)
-		if len(viol) == 0 {
-			for t, n := range over {
-				c.Violation(t+": strict ok, permissive differs (differences beyond the classification cap, none classified)", map[string]any{"count": n})
-			}
-		}
-	}
+	c.Set("differences_by_signature", classified)
+	c.Set("representatives_rerun_in_fresh_processes", len(res)-unresolved)
 }
 
 func trimHex(h string) string {
@@ -1025,6 +1072,9 @@ func replay(c *ev.Ctx) {
 	po, err := runSingle("permissive", items, 120*time.Second)
 	if err != nil {
 		c.Broken("permissive re-run failed: %v", err)
+	}
+	if so2, err := runSingle("strict", items, 120*time.Second); err != nil || so2[0].OK != so[0].OK || so2[0].Digest != so[0].Digest || so2[0].Rest != so[0].Rest {
+		c.Broken("two fresh strict processes disagree on this input (err=%v): not judged", err)
 	}
 	c.States.Add(1)
 	c.Transitions.Add(2)
